@@ -296,7 +296,7 @@ def _gen_models(ctx):
                 for ops in itertools.product(kinds, repeat=k):
                     yield {"expr": (g,) + tuple(ops)}
     rng = ctx.rng("c07.models")
-    n = ctx.pick(1500, 30000)
+    n = ctx.pick(4000, 80000)
     for _ in range(n):
         int_only = rng.random() < 0.5
         labels = INTS[:rng.choice([2, 3, 4])] if int_only else rng.sample(MIXED, rng.choice([2, 3, 4]))
@@ -326,7 +326,7 @@ def _gen_nested(ctx):
             for i2 in inner[::3] + ['a', 0]:
                 yield {"expr": (g, i1, i2)}
     rng = ctx.rng("c07.nested")
-    n = ctx.pick(2500, 50000)
+    n = ctx.pick(8000, 160000)
     for _ in range(n):
         fam = rng.random()
         if fam < 0.35:
